@@ -50,11 +50,15 @@ structure St where
   joiners : List Nat            -- `_finished._waiters`
   timers : List Timer
   now : Nat
+  -- history (ghost) variables: never read by the model, used to state conservation and order
+  accepted : List Nat           -- every item that went through `__put_internal`, in that order
+  delivered : List Nat          -- every item handed out by `_get`, in that order
+  done : Nat                    -- successful `task_done` calls
   deriving Repr, DecidableEq
 
 def init (d : Disc) (m : Nat) : St :=
   { disc := d, maxsize := m, items := [], getters := [], putters := [], futs := [], unfinished := 0,
-    finished := true, joiners := [], timers := [], now := 0 }
+    finished := true, joiners := [], timers := [], now := 0, accepted := [], delivered := [], done := 0 }
 
 inductive Op where
   | put (x : Nat) (deadline : Option Nat)
@@ -102,7 +106,8 @@ def consume (s : St) : St :=
 
 /-- `__put_internal` -/
 def putInternal (s : St) (x : Nat) : St :=
-  { s with unfinished := s.unfinished + 1, finished := false, items := cput s.disc s.items x }
+  { s with unfinished := s.unfinished + 1, finished := false, items := cput s.disc s.items x,
+           accepted := s.accepted ++ [x] }
 
 /-- `future_set_result_unless_cancelled` -/
 def resolveUC (s : St) (w : Nat) (v : FState) : St × List Ev :=
@@ -125,7 +130,7 @@ def putNowait (s0 : St) (x : Nat) : PN :=
       match cget s1.disc s1.items with
       | none => .assertion s1          -- unreachable: the container holds `x`
       | some (y, rest) =>
-        let (s2, e) := resolveUC { s1 with items := rest } g (.result y)
+        let (s2, e) := resolveUC { s1 with items := rest, delivered := s1.delivered ++ [y] } g (.result y)
         .ok s2 e
   | [] => if isFull s then .full s else .ok (putInternal s x) []
 
@@ -145,10 +150,10 @@ def getNowait (s0 : St) : GN :=
       let (s2, e) := resolveUC s1 p (.result 0)
       match cget s2.disc s2.items with
       | none => .assertion s2
-      | some (y, rest) => .ok { s2 with items := rest } y e
+      | some (y, rest) => .ok { s2 with items := rest, delivered := s2.delivered ++ [y] } y e
   | [] =>
     match cget s.disc s.items with
-    | some (y, rest) => .ok { s with items := rest } y []
+    | some (y, rest) => .ok { s with items := rest, delivered := s.delivered ++ [y] } y []
     | none => .empty s
 
 def addTimer (s : St) (d : Option Nat) (w : Nat) : St :=
@@ -196,7 +201,7 @@ def finSet (s : St) (raced : List Nat) : St × List Ev :=
 def taskDone (s : St) (raced : List Nat) : St × Res × List Ev :=
   if s.unfinished = 0 then (s, .valueError, [])
   else
-    let s1 := { s with unfinished := s.unfinished - 1 }
+    let s1 := { s with unfinished := s.unfinished - 1, done := s.done + 1 }
     if s1.unfinished = 0 then let (s2, e) := finSet s1 raced; (s2, .unit, e) else (s1, .unit, [])
 
 /-- `join` = `_finished.wait(timeout)` -/
